@@ -185,6 +185,10 @@ func runC09(t *testing.T, e *worlds.Env, tier string) (bool, any) {
 			urec.CloseThenRead = 1 + tp.Choose(4, "ctr-n")
 			sample.Handler += fmt.Sprintf(" close-then-read(%d)", urec.CloseThenRead)
 		}
+		if urec != nil && tp.Prob(1, 5, "zero-reads") {
+			urec.ZeroReads = true
+			sample.Handler += " zero-length-probes"
+		}
 		if tp.Prob(1, 5, "read-timeouts") {
 			uw.Sock.InjectReadTimeouts(1 + tp.Choose(3, "rt-n"))
 		}
